@@ -354,6 +354,8 @@ type capCase struct {
 	Class string `json:"class"`
 	Total int    `json:"total"` // encoded length of the single message [0, h'..']
 	Cap   int    `json:"cap"`
+	// Plan: sizes of the leading segments (the rest goes in full segments)
+	Plan []int `json:"plan,omitempty"`
 }
 
 func genCap(c *vh.Ctx) []*capCase {
@@ -364,7 +366,20 @@ func genCap(c *vh.Ctx) []*capCase {
 	return []*capCase{
 		{Kind: "cap", Class: "cap+1-accepted", Total: capv + 1, Cap: capv},
 		{Kind: "cap", Class: "over-cap-rejected", Total: capv + 3*65535, Cap: capv},
+		// the buffer holds exactly cap bytes (still accepted), then one more byte
+		{Kind: "cap", Class: "exactly-cap-then-over", Total: capv + 70000, Cap: capv, Plan: exactPlan(capv)},
 	}
+}
+
+// exactPlan: full segments, then one that brings the buffer to exactly cap, then one byte
+func exactPlan(capv int) []int {
+	var p []int
+	rem := capv
+	for rem > 65535 {
+		p = append(p, 65535)
+		rem -= 65535
+	}
+	return append(p, rem, 1)
 }
 
 func doCap(c *vh.Ctx, cc *capCase) {
@@ -379,24 +394,37 @@ func doCap(c *vh.Ctx, cc *capCase) {
 	}()
 	const S = 65535
 	c.Res.Count(fmt.Sprintf("cap/%d", cc.Total), true, "cap:"+cc.Class)
-	// the buffer after k segments is an incomplete item of min(k*S, len) bytes:
-	// an error is due exactly when that first exceeds the cap while incomplete
+	// segment boundaries: the plan first, then full segments
+	var ends []int
+	off := 0
+	for _, n := range cc.Plan {
+		if off+n >= len(msg) {
+			break
+		}
+		off += n
+		ends = append(ends, off)
+	}
+	for off < len(msg) {
+		off = min(off+S, len(msg))
+		ends = append(ends, off)
+	}
+	// the buffer after segment k is an incomplete item of ends[k] bytes: an
+	// error is due exactly when that first exceeds the cap while incomplete
 	errDueAt := -1
-	nseg := (len(msg) + S - 1) / S
-	for k := 1; k <= nseg; k++ {
-		if k*S < len(msg) && k*S > cc.Cap {
+	for k, e := range ends {
+		if e < len(msg) && e > cc.Cap {
 			errDueAt = k
 			break
 		}
 	}
-	for k := 1; k <= nseg; k++ {
-		lo, hi := (k-1)*S, min(k*S, len(msg))
+	lo := 0
+	for k, hi := range ends {
 		if k == errDueAt {
 			// everything before is in the buffer and must not have raised an error
 			time.Sleep(50 * time.Millisecond)
 			srv.pollErr()
 			if srv.errSeen {
-				c.Res.Violate("monitor", "cap-early-error", fmt.Sprintf("incomplete buffer of %d bytes (cap %d) already rejected: %s", (k-1)*S, cc.Cap, srv.errText), cc)
+				c.Res.Violate("monitor", "cap-early-error", fmt.Sprintf("incomplete buffer of %d bytes (cap %d) already rejected: %s", lo, cc.Cap, srv.errText), cc)
 				return
 			}
 		}
@@ -404,9 +432,10 @@ func doCap(c *vh.Ctx, cc *capCase) {
 		if _, err := b.Write(frame(msg[lo:hi])); err != nil {
 			break
 		}
+		lo = hi
 		if k == errDueAt {
 			if !srv.waitFor(0, true, waitTimeout) {
-				c.Res.Violate("monitor", "cap-not-enforced", fmt.Sprintf("incomplete buffer of %d bytes exceeds the cap %d but no error was reported", k*S, cc.Cap), cc)
+				c.Res.Violate("monitor", "cap-not-enforced", fmt.Sprintf("incomplete buffer of %d bytes exceeds the cap %d but no error was reported", hi, cc.Cap), cc)
 			}
 			return
 		}
